@@ -1,6 +1,7 @@
 """C07 — message content and envelope integrity on every path (engine E1; DESIGN.md §5 C07)."""
 import os
 import re
+import time
 
 from framework import REPO
 from props import e1util
@@ -68,14 +69,18 @@ def run(ctx):
         run_e2e(ctx, ebin, corr_broken, combos=ctx.budget(24, 0), n=ctx.budget(40, 30))
     # --- search phase ---------------------------------------------------------------------------
     if (ctx.broken_ties or corr_broken) and not ctx.violations:
-        ctx.log("tie/correspondence broken without an oracle failure: searching with a larger budget")
+        limit = ctx.budget(60, 600)
+        ctx.log("tie/correspondence broken without an oracle failure: searching other seeds for at most %d s" % limit)
+        t_end = time.time() + limit
         seed0 = ctx.seed
-        for s in range(1, 4):
+        for s in range(1, 9):
+            if time.time() > t_end - 20:
+                break
             ctx.seed = seed0 + 1000 * s
             if binp:
-                run_wire(ctx, binp, [], ctx.budget(2500, 40000) * 4, search=True)
-            if ebin and not ctx.violations:
-                run_e2e(ctx, ebin, [], combos=ctx.budget(60, 0), n=40, search=True)
+                run_wire(ctx, binp, [], ctx.budget(8000, 60000), search=True)
+            if ebin and not ctx.violations and time.time() < t_end - 20:
+                run_e2e(ctx, ebin, [], combos=ctx.budget(24, 0), n=40, search=True)
             if ctx.violations:
                 break
         ctx.seed = seed0
